@@ -53,12 +53,16 @@ def event(ctx, lc, o, seq, ctype, size, ua, w, s, ws, need):
 
 def run(ctx):
     lc = common.load_repo(ctx.repo)
-    ctx.rule = ("(M) MC_Complexity: every (N,w,s) up to MaxN: K windows fit, window K+1 does not, the coded position row has K strictly "
+    ctx.rule = ("(proof) TLAPS ProofsGeometry: WindowsFit, PositionRow for all sizes; (M) MC_Complexity: every (N,w,s) up to MaxN: K windows fit, window K+1 does not, the coded position row has K strictly "
                 "increasing entries in 1..N; every window over 3 letters up to length 7: LC, LZW in [0,1], WF counts sum to the window; "
                 "(G) every sequence over {K,E,G,L} up to a length x 3 types x alphabets {2,3,20} x every (w,s) x word sizes; (V) random "
                 "sequences x types x 12 sizes x random user alphabets x random w, s, word size; unknown type and w > N must raise. Every "
                 "reply is judged by TLC: K, positions, range, locality (value = value of the window alone), WF = sum of the entropy "
                 "kernel over the reduced counts. non-trivial = distinct (sequence, type, alphabet, w, s)")
+    # unbounded (TLAPS, ProofsGeometry): WindowsFit (K windows fit, K+1 do not) and PositionRow (K strictly increasing positions
+    # within 1..N) for all N, w, s
+    from .. import tlaps
+    ctx.extra["tlaps_obligations_proved"] = tlaps.prove(ctx, "ProofsGeometry", ["Geometry"])
     maxn = ctx.pick(40, 100)
     cfg = tlc.write_cfg(os.path.join(ctx.work, "MC_Complexity.cfg"), constants={"MaxN": maxn, "MaxWin": ctx.pick(7, 9)},
                         invariants=["Geometry", "Values", "Homopolymer"])
